@@ -219,6 +219,10 @@ func c18Conf(c *fw.Case) (o fw.Outcome) {
 	var out bytes.Buffer
 	cmd.Stdout = &out
 	if err := cmd.Run(); err != nil {
+		if ctx.Err() != nil {
+			o.Inconcl("configuration child exceeded its two-minute watchdog")
+			return
+		}
 		o.Fail("conf-crash", "GetConfiguration failed on a well-formed file: %v\n%s", err, y)
 		return
 	}
